@@ -24,6 +24,7 @@ GROUPS = {
     "R2":     dict(rep=[("vec", 2)], tan=[("lin", 2)], dim=2, dof=2, repsize=2, tsize=3),
     "R3":     dict(rep=[("vec", 3)], tan=[("lin", 3)], dim=3, dof=3, repsize=3, tsize=4),
     "R5":     dict(rep=[("vec", 5)], tan=[("lin", 5)], dim=5, dof=5, repsize=5, tsize=6),
+    "R16":    dict(rep=[("vec", 16)], tan=[("lin", 16)], dim=16, dof=16, repsize=16, tsize=17),
 }
 
 
